@@ -207,4 +207,23 @@ Section PolicyProofs.
       + unfold resolve. rewrite Hf. reflexivity.
       + exists b. unfold resolve in Hs. rewrite Hf in Hs. auto.
   Qed.
+
+  (* in ANY world state, for ANY session and statement shape: binding consults the policy object of the session's cluster,
+     decoding consults the same object, so a round trip returns the rows *)
+  Lemma session_round_transparent : forall (st : wstate T) s sh ms iv rows wire, length iv = 16%nat ->
+    Forall (fun r => length r <= length ms)%nat rows ->
+    bind_rows V T ser enc iv (map (resolve T (stmt_policy T (fst st) (nth s (snd st) 0%nat) sh)) ms) rows = Some wire ->
+    wstep V T ser deser enc dec st (WRound V T s sh ms iv rows) = (st, OutRound V (Some wire) (Some rows)).
+  Proof.
+    intros [w sessions] s sh ms iv rows wire Hiv Hall Hb. cbn [fst snd] in Hb.
+    unfold wstep, wstep_with. rewrite Hb. f_equal. f_equal.
+    assert (stmt_policy T w (nth s sessions 0%nat) sh = handler_policy T w sessions s) as Heq by (destruct sh; reflexivity).
+    rewrite Heq in Hb.
+    apply (rows_roundtrip V T ser deser enc dec aes_roundtrip codec_roundtrip iv _ rows wire Hiv); [|exact Hb].
+    rewrite map_length. exact Hall.
+  Qed.
+
+  Lemma reregistration_wins : forall (p : policy T) d k1 t1 k2 t2,
+    pol_find T (add_column T (add_column T p d k1 t1) d k2 t2) d = Some (k2, t2).
+  Proof. intros. rewrite add_column_find. rewrite (proj2 (desc_eqb_eq d d) eq_refl). reflexivity. Qed.
 End PolicyProofs.
